@@ -160,6 +160,12 @@ class Facts:
         ps = {parent_fn} | self._helpers_of(parent_fn)
         return [b for b in self.bodies if b['kind'] == 'closure' and b['parent'] in ps]
 
+    def code_under(self, parent_fn):
+        """bodies other than `parent_fn` itself whose code belongs to it: nested closures, helpers
+        added after the pinned commit that are reached only from it, and their closures"""
+        hs = self._helpers_of(parent_fn)
+        return self.closures_under(parent_fn) + [b for b in self.bodies if b['fn'] in hs and b['kind'] not in ('promoted', 'closure')]
+
     def closures_under(self, parent_fn):
         """closures nested at any depth in `parent_fn` or in a new helper analysed through it"""
         ps = tuple(x + '::' for x in ({parent_fn} | self._helpers_of(parent_fn)))
@@ -296,6 +302,8 @@ def show(t, depth=0):
         return f'{show(t[1], depth+1)}@{t[2]}'
     if k == 'upvar':
         return f'upvar:{t[1]}'
+    if k == 'fnitem':
+        return t[1]
     if k == 'cast':
         return show(t[1], depth+1)
     return str(t)
@@ -308,7 +316,7 @@ def mentions(t, sub):
     for x in t[1:]:
         if isinstance(x, tuple):
             if x and isinstance(x[0], str) and x[0] in ('arg', 'const', 'field', 'index', 'bin', 'un', 'discr',
-                                                        'call', 'agg', 'closure', 'unk', 'down', 'upvar', 'cast'):
+                                                        'call', 'agg', 'closure', 'unk', 'down', 'upvar', 'cast', 'fnitem'):
                 if mentions(x, sub):
                     return True
             else:
@@ -323,7 +331,7 @@ def subterms(t):
     for x in t[1:]:
         if isinstance(x, tuple):
             if x and isinstance(x[0], str) and x[0] in ('arg', 'const', 'field', 'index', 'bin', 'un', 'discr',
-                                                        'call', 'agg', 'closure', 'unk', 'down', 'upvar', 'cast'):
+                                                        'call', 'agg', 'closure', 'unk', 'down', 'upvar', 'cast', 'fnitem'):
                 yield from subterms(x)
             else:
                 for y in x:
@@ -497,23 +505,51 @@ def _cm(callee, pat):
 TRACK_DROP_TYPES = ('CancelOnPanic',)
 
 
+def simplify_proj(t):
+    """project through an aggregate that substitution put under a field / downcast"""
+    if t[0] != 'field':
+        return t
+    base, pr = t[1], t[2]
+    if base[0] == 'agg' and base[4]:
+        fname = pr.split('.')[-1]
+        names = base[4].split(',')
+        if fname in names and names.index(fname) < len(base[3]):
+            return base[3][names.index(fname)]
+    if base[0] == 'agg' and base[1] == 'tuple' and pr.startswith('tuple.'):
+        i = int(pr.split('.')[1])
+        if i < len(base[3]):
+            return base[3][i]
+    if base[0] == 'down' and base[1][0] == 'agg' and base[1][2] == base[2] and base[1][4]:
+        fname = pr.split('.')[-1]
+        names = base[1][4].split(',')
+        if fname in names and names.index(fname) < len(base[1][3]):
+            return base[1][3][names.index(fname)]
+    return t
+
+
 def subst_term(t, amap, inst):
     if not isinstance(t, tuple) or not t:
         return t
     if t[0] == 'arg' and len(t) == 2 and isinstance(t[1], int):
         return amap.get(t[1], ('unk', f'arg{t[1]}'))
+    if t[0] == 'upvar' and len(t) == 2 and t in amap:
+        return amap[t]
     if t[0] == 'call' and len(t) == 4:
         return ('call', t[1], tuple(subst_term(a, amap, inst) for a in t[2]), (inst,) + tuple(t[3]))
-    return tuple(subst_term(x, amap, inst) if isinstance(x, tuple) else x for x in t)
+    r = tuple(subst_term(x, amap, inst) if isinstance(x, tuple) else x for x in t)
+    if r[0] == 'field':
+        r = simplify_proj(r)
+    return r
 
 
 def subst_guard(g, amap, inst):
     return (g[0], subst_term(g[1], amap, inst) if g[1] is not None else None, (inst,) + tuple(g[2]))
 
 
-def instantiate_path(cp, args, inst, caller_held, callee):
+def instantiate_path(cp, args, inst, caller_held, callee, amap=None):
     """events of callee path `cp` with its parameters replaced by the caller's argument terms"""
-    amap = {i + 1: a for i, a in enumerate(args)}
+    if amap is None:
+        amap = {i + 1: a for i, a in enumerate(args)}
     out = []
     retv = ('unk', 'ret')
     ret_held = caller_held
@@ -538,6 +574,84 @@ def instantiate_path(cp, args, inst, caller_held, callee):
         ne.d['inlined_from'] = callee
         out.append(ne)
     return out, retv, ret_held
+
+
+OPT = 'std::option::Option'
+RES = 'std::result::Result'
+NONE_TERM = ('agg', OPT, 'None', (), '')
+
+
+def mk_some(v):
+    return ('agg', OPT, 'Some', (v,), '0')
+
+
+def mk_ok(v):
+    return ('agg', RES, 'Ok', (v,), '0')
+
+
+def mk_err(v):
+    return ('agg', RES, 'Err', (v,), '0')
+
+
+def payload(x, adt, variant):
+    if x[0] == 'agg' and x[2] == variant and len(x[3]) == 1:
+        return x[3][0]
+    return ('field', ('down', x, variant), f'{adt}::{variant}.0')
+
+
+def combinator_plan(callee, args):
+    """std combinators that take a callable are control flow in disguise: returns
+    (subject, adt | 'bool', [(label, action)]) with action ('val', term) or ('app', callable, [args], wrap),
+    so that `x.map_or(d, f)` and `match x { Some(v) => f(v), None => d }` give the same paths"""
+    nc = norm_callee(callee)
+    ident = lambda v: v
+    if nc.startswith(OPT + '::') and nc.count('::') == 3 and args:
+        m = nc.split('::')[-1]
+        x = args[0]
+        S = payload(x, OPT, 'Some')
+        if m == 'map' and len(args) == 2:
+            return x, OPT, [('Some', ('app', args[1], [S], mk_some)), ('None', ('val', NONE_TERM))]
+        if m == 'and_then' and len(args) == 2:
+            return x, OPT, [('Some', ('app', args[1], [S], ident)), ('None', ('val', NONE_TERM))]
+        if m == 'map_or' and len(args) == 3:
+            return x, OPT, [('Some', ('app', args[2], [S], ident)), ('None', ('val', args[1]))]
+        if m == 'map_or_else' and len(args) == 3:
+            return x, OPT, [('Some', ('app', args[2], [S], ident)), ('None', ('app', args[1], [], ident))]
+        if m == 'unwrap_or_else' and len(args) == 2:
+            return x, OPT, [('Some', ('val', S)), ('None', ('app', args[1], [], ident))]
+        if m == 'ok_or_else' and len(args) == 2:
+            return x, OPT, [('Some', ('val', mk_ok(S))), ('None', ('app', args[1], [], mk_err))]
+        if m == 'is_some_and' and len(args) == 2:
+            return x, OPT, [('Some', ('app', args[1], [S], ident)), ('None', ('val', ('const', 'false')))]
+        if m == 'is_none_or' and len(args) == 2:
+            return x, OPT, [('Some', ('app', args[1], [S], ident)), ('None', ('val', ('const', 'true')))]
+        if m == 'or_else' and len(args) == 2:
+            return x, OPT, [('Some', ('val', x)), ('None', ('app', args[1], [], ident))]
+    if nc.startswith(RES + '::') and nc.count('::') == 3 and args:
+        m = nc.split('::')[-1]
+        x = args[0]
+        O, E = payload(x, RES, 'Ok'), payload(x, RES, 'Err')
+        if m == 'map' and len(args) == 2:
+            return x, RES, [('Ok', ('app', args[1], [O], mk_ok)), ('Err', ('val', mk_err(E)))]
+        if m == 'map_err' and len(args) == 2:
+            return x, RES, [('Ok', ('val', mk_ok(O))), ('Err', ('app', args[1], [E], mk_err))]
+        if m == 'and_then' and len(args) == 2:
+            return x, RES, [('Ok', ('app', args[1], [O], ident)), ('Err', ('val', mk_err(E)))]
+        if m == 'map_or_else' and len(args) == 3:
+            return x, RES, [('Ok', ('app', args[2], [O], ident)), ('Err', ('app', args[1], [E], ident))]
+        if m == 'map_or' and len(args) == 3:
+            return x, RES, [('Ok', ('app', args[2], [O], ident)), ('Err', ('val', args[1]))]
+        if m == 'unwrap_or_else' and len(args) == 2:
+            return x, RES, [('Ok', ('val', O)), ('Err', ('app', args[1], [E], ident))]
+        if m == 'or_else' and len(args) == 2:
+            return x, RES, [('Ok', ('val', mk_ok(O))), ('Err', ('app', args[1], [E], ident))]
+        if m == 'is_ok_and' and len(args) == 2:
+            return x, RES, [('Ok', ('app', args[1], [O], ident)), ('Err', ('val', ('const', 'false')))]
+        if m == 'is_err_and' and len(args) == 2:
+            return x, RES, [('Ok', ('val', ('const', 'false'))), ('Err', ('app', args[1], [E], ident))]
+    if 'core::bool::' in callee and callee.endswith('::then') and len(args) == 2:
+        return args[0], 'bool', [('true', ('app', args[1], [], mk_some)), ('false', ('val', NONE_TERM))]
+    return None
 
 
 class PathBudget(Exception):
@@ -668,6 +782,9 @@ class Fn:
                 pv = self.promoted_value(o.get('promoted', v))
                 if pv is not None:
                     return pv
+            if 'fndef' in o:
+                # a function item used as a value: ('fnitem', path, ctor adt | '', ctor variant | '')
+                return ('fnitem', v, o.get('ctor_adt', ''), o.get('ctor_variant', ''))
             return ('const', v)
         if o['k'] in ('copy', 'move'):
             return self.place_term(o['p'], env, heap)
@@ -707,7 +824,94 @@ class Fn:
                     ','.join(rv.get('fields', [])))
         return ('unk', k + ':' + str(rv.get('v', ''))[:40])
 
-    def paths(self, start=0, stop=None, budget=200000, env0=None, keep_noise=False, stop_at_calls=None, max_visits=2, _depth=0):
+    def desugar_branches(self, plan, memo, bb, t, held, max_visits, _depth, desugar):
+        """branches of a std combinator call: [(events, result value, end, memo)] or None when a
+        callable is not analysable (then the call stays a call)"""
+        facts = self.facts
+        subject, adt, branches = plan
+        # all callables must be closures with bodies, or function items
+        for _, act in branches:
+            if act[0] == 'app':
+                f = act[1]
+                if f[0] == 'closure':
+                    if f[1] not in facts.by:
+                        return None
+                elif f[0] != 'fnitem':
+                    return None
+        if adt == 'bool':
+            dterm = subject
+            key, flipped = canon_decision(dterm)
+            okey, omap = option_decision(dterm)
+            if okey is not None:
+                key, flipped = okey, False
+            cv = const_value(dterm)
+            known = None if cv is None else ('true' if cv == 1 else 'false')
+            canon = (lambda lab: omap.get(lab, lab)) if okey is not None and omap else ((lambda lab: flip_label(lab)) if flipped else (lambda lab: lab))
+        else:
+            dterm = ('discr', subject, adt)
+            key = ('od', option_subject(subject))
+            known = known_variant(('discr', key[1], adt), facts)
+            canon = lambda lab: lab
+        res = []
+        for lab, act in branches:
+            if known is not None and lab != known:
+                continue
+            cl = canon(lab)
+            if known is None and key in memo and not memo_compatible(memo[key], cl):
+                continue
+            m2 = memo
+            evs = []
+            if known is None:
+                m2 = dict(memo)
+                m2[key] = memo_update(memo.get(key), cl)
+                if not (key in memo and memo[key][0] == 'eq'):
+                    # (a decision this path already took is not reported twice)
+                    evs.append(Ev('atom', bb, t['line'], held, t.get('mac'), term=dterm, outcome=lab, via=t['callee']))
+            if act[0] == 'val':
+                res.append((evs, act[1], 'return', m2))
+                continue
+            _, f, fargs, wrap = act
+            if f[0] == 'fnitem':
+                if f[2]:
+                    # a constructor used as a function
+                    v = ('agg', f[2], f[3], tuple(fargs), ','.join(str(i) for i in range(len(fargs))))
+                    res.append((evs, wrap(v), 'return', m2))
+                    continue
+                n = facts._inst[0] = facts._inst[0] + 1
+                v = ('call', f[1], tuple(fargs), (bb, 'fnitem', n))
+                ev = Ev('call', bb, t['line'], held, t.get('mac'), callee=f[1], args=tuple(fargs), decl='', generic='',
+                        local=norm_callee(f[1]) in facts.by or f[1] in facts.by, result=v, via=t['callee'])
+                res.append((evs + ([ev] if not is_noise_call(f[1]) else []), wrap(v), 'return', m2))
+                continue
+            cname = f[1]
+            cb = facts.by[cname]
+            cf = facts.fn(cb)
+            try:
+                cps = cf.paths(budget=3000, max_visits=max_visits, _depth=_depth + 1, desugar=desugar)
+            except PathBudget:
+                return None
+            if len(cps) > 64:
+                return None
+            amap = {1: f}
+            for i, a in enumerate(fargs):
+                amap[2 + i] = a
+            for i, c in enumerate(cb.get('caps', [])):
+                if i < len(f[2]):
+                    amap[('upvar', cf.upvar_names.get('upvar:' + c, c))] = f[2][i]
+            for cp in cps:
+                facts._inst[0] += 1
+                evs2, retv, _rh = instantiate_path(cp, (), facts._inst[0], held, cname, amap=amap)
+                if cp.end != 'return':
+                    if cp.end in ('diverge', 'cut'):
+                        res.append((evs + evs2, None, cp.end, m2))
+                    continue
+                m3 = decisions_feasible(evs2, m2, facts)
+                if m3 is None:
+                    continue
+                res.append((evs + evs2, wrap(retv), 'return', m3))
+        return res
+
+    def paths(self, start=0, stop=None, budget=200000, env0=None, keep_noise=False, stop_at_calls=None, max_visits=2, _depth=0, desugar=True):
         """enumerate paths from block `start`; `stop(bb)` ends a path (before executing bb) with
         end='stop'."""
         out = []
@@ -810,6 +1014,31 @@ class Fn:
                     callee = t['callee']
                     args = tuple(self.op_term(a, env, heap) for a in t['args'])
                     dest = t['dest']
+                    plan = combinator_plan(callee, args) if desugar and _depth < 4 and t['t'] >= 0 else None
+                    if plan is not None and not any(a['k'] == 'move' and not a['p']['proj'] and a['p']['local'] in guards for a in t['args']):
+                        branches = self.desugar_branches(plan, memo, bb, t, held_of(guards), max_visits, _depth, desugar)
+                        if branches is not None:
+                            for evs2, val2, end2, memo2 in branches:
+                                if end2 != 'return':
+                                    out.append(Path(events + evs2, end2, trail))
+                                    continue
+                                env2 = dict(env)
+                                heap2 = heap
+                                for e2 in evs2:
+                                    if e2.kind == 'assign' and e2.d['place'][0] != 'var':
+                                        if heap2 is heap:
+                                            heap2 = dict(heap)
+                                        heap2[e2.d['place']] = e2.d['value']
+                                evs3 = list(evs2)
+                                if not dest['proj']:
+                                    env2[dest['local']] = val2
+                                else:
+                                    pt = self.place_term(dest, env)
+                                    evs3.append(Ev('assign', bb, t['line'], held_of(guards), place=pt, value=val2))
+                                walk(t['t'], env2, memo2, used, events + evs3, guards, trail, heap2)
+                                if count[0] > budget:
+                                    raise PathBudget(self.name)
+                            return
                     # guard ownership transfer into the callee
                     moved = [a['p']['local'] for a in t['args']
                              if a['k'] == 'move' and not a['p']['proj'] and a['p']['local'] in guards]
@@ -863,7 +1092,7 @@ class Fn:
                     if _depth < 2 and ev is not None and facts.is_new_fn(callee):
                         cf = facts.fn(facts.by[callee])
                         try:
-                            cps = cf.paths(budget=3000, max_visits=max_visits, _depth=_depth + 1)
+                            cps = cf.paths(budget=3000, max_visits=max_visits, _depth=_depth + 1, desugar=desugar)
                         except PathBudget:
                             cps = None
                         if cps is not None and len(cps) <= 64:
@@ -1131,11 +1360,22 @@ def fold_call(callee, args):
         if nc.endswith('Option::unwrap_or') and len(args) == 2:
             return args[1]
     if a[0] == 'agg' and a[1].endswith('option::Option'):
+        nc0 = norm_callee(callee)
+        if nc0.endswith('Option::unwrap_or_default'):
+            return a[3][0] if a[2] == 'Some' and len(a[3]) == 1 else ('const', 'Default::default()')
+        if nc0.endswith('Option::unwrap_or') and len(args) == 2 and a[2] == 'Some' and len(a[3]) == 1:
+            return a[3][0]
         if callee.endswith('::is_none'):
             return ('const', 'true' if a[2] == 'None' else 'false')
         if callee.endswith('::is_some'):
             return ('const', 'true' if a[2] == 'Some' else 'false')
     nc = norm_callee(callee)
+    if is_bool_then(callee) and callee.endswith('::then_some') and len(args) == 2:
+        cvb = const_value(a)
+        if cvb == 1:
+            return mk_some(args[1])
+        if cvb == 0:
+            return NONE_TERM
     if nc.endswith('Try>::branch') or nc.endswith('Try::branch'):
         # `?` applied to the value an inlined helper returned through its own `?`, or to a value built
         # on this path
@@ -1188,6 +1428,10 @@ def lin(t):
         m = re.match(r'^(-?\d+)_?[iu]?(8|16|32|64|128|size)?$', t[1])
         if m:
             return (None, int(m.group(1)))
+        m = re.search(r'<impl u(8|16|32|64|128|size)>::(MAX|MIN)$', t[1])
+        if m:
+            bits = 64 if m.group(1) == 'size' else int(m.group(1))
+            return (None, (1 << bits) - 1 if m.group(2) == 'MAX' else 0)
         return (t, 0)
     if t[0] == 'field' and t[2].startswith('tuple.0') and t[1][0] == 'bin' and t[1][1] in ('AddWithOverflow', 'SubWithOverflow'):
         t = ('bin', 'Add' if t[1][1].startswith('Add') else 'Sub', t[1][2], t[1][3])
